@@ -24,6 +24,8 @@ def main() -> int:
     specs = sorted(glob.glob(os.path.join(tlc.SPECS, '*.tla')))
     bad = []
     for path in specs:
+        if path.endswith('Proof.tla') and not os.path.isdir(tlc.TLAPS_STDLIB):
+            continue      # proof modules need the proof system's standard module; they are checked by tlapm in their check
         good, out = tlc.sany(path)
         if not good:
             bad.append((path, out[-1500:]))
